@@ -619,6 +619,14 @@ func runStoreSink(ctx context.Context, c Case, desc ocispec.Descriptor, v verdic
 			if _, serr := os.Stat(filepath.Join(wd, "blob.bin")); serr == nil {
 				res.Classes = append(res.Classes, "named-file-left-behind")
 			}
+			// the same content asked for without its name is not there either
+			if ok, xerr := st.Exists(ctx, desc); xerr == nil && ok {
+				return res, vt.Failf("C05/visible-after-failed-push", "%s: every Push failed (%v) but Exists of the same descriptor WITHOUT the title annotation reports true", c.Sink, err)
+			}
+			if rc, ferr := st.Fetch(ctx, desc); ferr == nil {
+				rc.Close()
+				return res, vt.Failf("C05/fetch-after-failed-push", "%s: every Push failed (%v) but Fetch of the same descriptor without the title annotation succeeds", c.Sink, err)
+			}
 		}
 	} else {
 		if !exists {
